@@ -11,6 +11,7 @@ import (
 	"context"
 	"crypto/tls"
 	"crypto/x509"
+	"encoding/base64"
 	"encoding/json"
 	"fmt"
 	"io"
@@ -23,6 +24,7 @@ import (
 	"strconv"
 	"strings"
 	"sync"
+	"sync/atomic"
 	"testing"
 	"testing/synctest"
 	"time"
@@ -96,7 +98,10 @@ type sim struct {
 	calls   map[int]*call
 	order   []*call
 
-	mu     sync.Mutex // guards events, dialEv, seen and the calls' conns
+	pre      *call // the prehistory's call
+	preConns []*simnet.Conn
+
+	mu     sync.Mutex // guards events, dialEv, seen, preConns and the calls' conns
 	events []srvEvent
 	dialEv []dialEvent
 	seen   map[[2]int]*seen
@@ -333,8 +338,17 @@ func (s *sim) main() {
 
 	// the seam: the process's default transport reaches the simulated network
 	tr := http.DefaultTransport.(*http.Transport)
-	tr.DialContext = s.dial
-	tr.TLSClientConfig = &tls.Config{RootCAs: s.roots, NextProtos: []string{"h2", "http/1.1"}}
+	current.Store(s)
+	defer current.Store(nil)
+	seam := &tls.Config{RootCAs: s.roots, NextProtos: []string{"h2", "http/1.1"}}
+	tr.DialContext, tr.TLSClientConfig = seamDial, seam
+	s.prehistory()
+	// the run proper starts from the process's settings as the harness made them
+	if t, ok := http.DefaultClient.Transport.(*http.Transport); ok && t != nil {
+		t.CloseIdleConnections()
+	}
+	http.DefaultClient.Transport = nil
+	tr.DialContext, tr.TLSClientConfig, tr.ForceAttemptHTTP2 = seamDial, seam, origForceH2
 	s.snap = snapshot()
 
 	for _, sv := range s.servers {
@@ -367,12 +381,37 @@ func (s *sim) main() {
 	s.simNanos = int64(time.Since(s.start))
 }
 
-// dial is DefaultTransport.DialContext for the run: the host name says which
-// call dials and which server it wants.
+// current is the run whose network dials reach.  A transport that the code
+// under test kept from an earlier run (in state the harness cannot reset)
+// carries a copy of seamDial and so still reaches the live network.
+var current atomic.Pointer[sim]
+
+// seamDial is DefaultTransport.DialContext while a run is on.
+func seamDial(ctx context.Context, network, addr string) (net.Conn, error) {
+	s := current.Load()
+	if s == nil {
+		return nil, simnet.ErrRefused
+	}
+	return s.dial(ctx, network, addr)
+}
+
+const canaryHost = "c0.canary.test"
+
+// dial: the host name says which call dials and which server it wants.
 func (s *sim) dial(ctx context.Context, network, addr string) (net.Conn, error) {
 	host, _, err := net.SplitHostPort(addr)
 	if err != nil {
 		host = addr
+	}
+	if host == canaryHost {
+		conn, err := s.net.Dial("canary", 0)
+		if err != nil {
+			return nil, err
+		}
+		s.mu.Lock()
+		s.preConns = append(s.preConns, conn)
+		s.mu.Unlock()
+		return conn, nil
 	}
 	k, n := -1, -1
 	if p := strings.Split(host, "."); len(p) == 3 && p[2] == "test" && strings.HasPrefix(p[0], "c") && strings.HasPrefix(p[1], "srv") {
@@ -390,6 +429,50 @@ func (s *sim) dial(ctx context.Context, network, addr string) (net.Conn, error) 
 		return nil, derr
 	}
 	return conn, nil
+}
+
+// prehistory gives every run the same past: the process has already made one
+// pinned call (to a server and key of its own, which no case uses) and ended
+// it.  The property holds "regardless of connections made earlier", so this
+// takes nothing away; it makes state the code might keep where the harness
+// cannot reset it look the same in a worker's first run as in its later ones,
+// which is what keeps minimised cases replayable.  The call is not judged.
+func (s *sim) prehistory() {
+	ck := pool[poolSize]
+	cert, err := makeCert("pinsim canary", poolSize, poolSize, nil, false, []string{canaryHost}, false)
+	if err != nil {
+		s.harnessErr = "canary: " + err.Error()
+		return
+	}
+	ln := s.net.Listen("canary", &net.TCPAddr{IP: net.IPv4(192, 0, 2, 9), Port: 443})
+	tl := tls.NewListener(ln, &tls.Config{Certificates: []tls.Certificate{{Certificate: [][]byte{cert.Raw}, PrivateKey: ck.priv}}, NextProtos: []string{"http/1.1"}})
+	hs := &http.Server{ErrorLog: log.New(io.Discard, "", 0), Handler: http.HandlerFunc(func(w http.ResponseWriter, r *http.Request) {
+		rc := http.NewResponseController(w)
+		_ = rc.EnableFullDuplex()
+		w.WriteHeader(http.StatusOK)
+		_ = rc.Flush()
+		_, _ = io.Copy(io.Discard, r.Body)
+	})}
+	s.https = append(s.https, hs)
+	go func() { _ = hs.Serve(tl) }()
+	c := &call{s: s, k: 0, out: newOutPipe(), release: make(chan struct{})}
+	s.pre = c
+	fp := base64.StdEncoding.EncodeToString(ck.hash[:])
+	go func() {
+		err := simpleshell.Go(context.Background(), simpleshell.ConnConfig{C2: "https://" + canaryHost + simpleshell.IOPath + "?call=0", Fingerprint: fp}, shellImpl{c})
+		c.mu.Lock()
+		c.returned, c.err = true, err
+		c.mu.Unlock()
+	}()
+	synctest.Wait()
+	c.out.closeWrite()
+	close(c.release)
+	c.ended = true
+	synctest.Wait()
+	c.mu.Lock()
+	ok := c.connected && c.returned && c.err == nil
+	c.mu.Unlock()
+	s.trace = append(s.trace, fmt.Sprintf("prehistory: one pinned call made and ended (went through: %v)", ok))
 }
 
 func (s *sim) apply(a Action) {
@@ -443,6 +526,10 @@ func (s *sim) apply(a Action) {
 			s.faults["wrong_pin"]++
 		case c.class == clsUnpinned && !c.allowed:
 			s.faults["unvalidatable_chain"]++
+		}
+		s.probes["fp_"+a.FP]++
+		if a.FP != "empty" && a.Of != a.Server {
+			s.probes["fp_of_another_server"]++
 		}
 		if c.class == clsUnpinned && c.afterPinned {
 			s.probes["unpinned_call_after_pinned"]++
@@ -561,7 +648,7 @@ func (s *sim) judge(c *call) {
 	if c.class == clsUnpinned {
 		sig = SigRefusedUnpin
 	}
-	s.violate(InvRefused, sig, "%s is allowed by its own configuration (%s) but did not get through: %s (error from Go: %v; started after a pinned call: %v, while another call was streaming: %v)",
+	s.violate(InvRefused, sig, "%s is allowed by its own configuration (%s) but did not get through: %s (error from Go: %v; started after a pinned call of the run: %v, while another call was streaming: %v; every run is preceded by one finished pinned call to a server of its own)",
 		c.describe(), c.target.describe(), why, err, c.afterPinned, c.overlapped)
 }
 
@@ -724,7 +811,11 @@ func (s *sim) finish() {
 	for _, c := range s.order {
 		conns = append(conns, c.conns...)
 	}
+	conns = append(conns, s.preConns...)
 	s.mu.Unlock()
+	if s.pre != nil {
+		_ = s.pre.out.Close()
+	}
 	synctest.Wait()
 	for _, cn := range conns {
 		cn.Reset()
